@@ -2,6 +2,8 @@ package checks
 
 import (
 	"fmt"
+	"github.com/tyler-sommer/stick"
+	"github.com/tyler-sommer/stick/twig"
 	"html"
 	"net/url"
 	"strings"
@@ -421,6 +423,18 @@ func c13Levels(tier string) []core.Level {
 			}
 		}
 	}})
+	lv = append(lv, core.Level{Name: "history: every escaper on every boundary character after each escaper has produced > 256 KiB / > 1 MiB of output; the twig escape filter on one environment for values that make 'strategy + value' ambiguous (html / html_attr), in both orders and after 5000 other values", Gen: func(emit func(core.Case)) {
+		for e := range escapers {
+			for k := 0; k < 4; k++ {
+				emit(core.Case{Fam: "afterhuge", N: []int{e, k}})
+			}
+		}
+		for i := range c13Boundary {
+			for o := 0; o < 3; o++ {
+				emit(core.Case{Fam: "twigfilter", N: []int{i, o}})
+			}
+		}
+	}})
 	lv = append(lv, core.Level{Name: "re-escaping: every escaper on every escaper's output of every boundary character, alone and embedded in text (a 'do not double-encode' shortcut is lossy)", Gen: func(emit func(core.Case)) {
 		for _, e2 := range escapers {
 			for _, x := range c13Boundary {
@@ -567,6 +581,75 @@ func c13Run(c core.Case) core.Result {
 			sb.WriteString(out)
 		}
 		return core.Okay(true, sb.String())
+	case "afterhuge":
+		// an escaper's result does not depend on what was escaped before: after a call whose output exceeds
+		// 256 KiB / 1 MiB (scratch buffers, pools), every escaper still treats every boundary character per character
+		e1 := escapers[c.N[0]]
+		huge := []string{strings.Repeat("\"", 50000), strings.Repeat("plain text ", 30000), strings.Repeat(" <é>&'", 40000), strings.Repeat("x", 1100000)}[c.N[1]]
+		for round := 0; round < 3; round++ {
+			if _, pan := safeEscape(e1.fn, huge); pan != "" {
+				return core.Violation("panic", fmt.Sprintf("%s on %d bytes panicked: %s", e1.name, len(huge), pan))
+			}
+			for _, e := range escapers {
+				for _, x := range c13Boundary {
+					class, out := c13CheckOne(e, "a"+x+"b", true)
+					if class != "" && !strings.Contains(class, "/") {
+						return core.Violation(class, fmt.Sprintf("after %s had escaped %d bytes: %s", e1.name, len(huge), out))
+					}
+				}
+			}
+		}
+		return core.Okay(true, "ok")
+	case "twigfilter":
+		// the escape filter of a twig environment, on ONE environment, for values and strategy names chosen so that the
+		// concatenation "strategy + value" is ambiguous (html + "_attr..." / html_attr + "..."), in both orders, and
+		// after thousands of other values: each result is the escaper's own
+		env := twig.New(nil)
+		esc := func(strat, v string) (string, string) {
+			out, err, pan := tryExec(env, "{{ v|escape('"+strat+"')|raw }}", map[string]stick.Value{"v": v})
+			if err != nil {
+				return "", "error: " + err.Error()
+			}
+			return out, pan
+		}
+		x := c13Boundary[c.N[0]] + " onmouseover=alert(1) <b>"
+		pairs := [][2]string{{"html", "_attr" + x}, {"html_attr", x}, {"html", x}, {"html_attr", "_attr" + x}, {"js", "s" + x}, {"css", x}, {"url", x}}
+		order := pairs
+		if c.N[1] == 1 {
+			order = [][2]string{pairs[1], pairs[0], pairs[3], pairs[2], pairs[6], pairs[5], pairs[4]}
+		}
+		check := func(when string) *core.Result {
+			for _, p := range order {
+				var want string
+				for _, e := range escapers {
+					if e.name == p[0] {
+						want, _ = safeEscape(e.fn, p[1])
+					}
+				}
+				got, bad := esc(p[0], p[1])
+				if bad != "" {
+					v := core.Violation("panic", fmt.Sprintf("escape('%s') of %q: %s", p[0], p[1], bad))
+					return &v
+				}
+				if got != want {
+					v := core.Violation("filter-differs", fmt.Sprintf("%s: {{ v|escape('%s') }} with v = %q renders %q, the escaper gives %q", when, p[0], p[1], got, want))
+					return &v
+				}
+			}
+			return nil
+		}
+		if v := check("on a fresh environment"); v != nil {
+			return *v
+		}
+		if c.N[1] == 2 {
+			for i := 0; i < 5000; i++ {
+				esc([]string{"html", "js", "html_attr"}[i%3], "v"+itoa(i))
+			}
+			if v := check("after 5000 other values"); v != nil {
+				return *v
+			}
+		}
+		return core.Okay(true, "ok")
 	case "seq":
 		s := strings.Join(c.Args, "")
 		for _, e := range escapers {
